@@ -6,6 +6,7 @@ PATCH="$(readlink -f "$1")"; shift
 cd "$(dirname "$0")/.."
 PROPS="${*:-C01 C02 C03 C04 C05 C06 C07 C08 C09 C10 C11 C12 C13 C14 C15 C16 C17 C18 C19 C20}"
 if ! git -C /repo diff --quiet; then echo "/repo has uncommitted changes; refusing"; exit 2; fi
+export VERIF_EVIDENCE_DIR=/tmp/evidence-of-mutant-runs
 git -C /repo apply "$PATCH" || { echo "patch does not apply"; exit 2; }
 trap 'git -C /repo checkout -- . ; echo "(/repo restored)"' EXIT
 for p in $PROPS; do
